@@ -139,4 +139,7 @@ class BaseSchema(ABC):
         """
 
     def __setstate__(self, state):
-        self.__dict__ = state
+        # copy.copy() passes the instance dict of the original itself:
+        # rebinding ``self.__dict__`` to it would make the copy and the
+        # original share every attribute.
+        self.__dict__.update(state)
